@@ -19,7 +19,7 @@ META = {
                  "and run by the real VM through VmPolicy::call_action on a runtime perspective, comparing exit, "
                  "fact_insert/fact_delete calls, effects (with recalled flag) and stored facts",
     "text": "TLC enumerates every command policy within the bounds as an initial state — statement sequences over let, "
-            "function call (may panic), check-else-panic, check-else-recall, recall, if/else, match and a terminal finish "
+            "function call (may panic), debug_assert, check-else-panic, check-else-recall, recall, if/else, if/else-if/else, match and a terminal finish "
             "block (emit / create / delete / update / finish-function call), with a recall block from a menu, each condition "
             "carrying the value it takes at run time — and computes the reference outcome [exit, MachineIO calls, recall "
             "entered]. TLC checks on every program that a Panic or a Check without recall has no side effects, that effects "
@@ -34,8 +34,9 @@ META = {
             "they would break the property if accepted, the check confirms the compiler rejects them and, should one be accepted, "
             "runs it under the same predicate.",
     "note": "Bounds: quick — every policy block of <= 3 statements (nested ones counted), nesting <= 2, 5 finish bodies, 6 "
-            "recall blocks, 3 match-arm bodies (12 266 programs, each with the run-time values of its conditions); thorough — "
-            "additionally every flat block of <= 4 statements (37 831) and ~10 000 random derivations with <= 4 statements, "
+            "recall blocks, 3 arm bodies for match and else-if (19 114 programs, each with the run-time values of its conditions, "
+            "plus 88 with a misplaced statement); thorough — additionally every flat block of <= 4 statements incl. debug_assert "
+            "and ~10 000 random derivations with <= 4 statements, "
             "nesting 2 (that space has 307 704 programs; its enumeration does not fit the time budget). Trusted: the renderer, the spy perspective (delegating wrapper around the real perspective), the "
             "harness' decoder of stored keys/values, TestFfiEnvelope seal/open, the spec's reading of the statement "
             "semantics (policy book + documented compiler behaviour: finish exits Normal, Check in a recall block; the end of "
@@ -110,7 +111,7 @@ def run(ctx):
     missing = [k for k in need if cl[k] == 0]
     if missing:
         raise verif.ToolError("vacuous enumeration: no program with %s" % ", ".join(missing))
-    for kind in ("if", "match", "call", "recall"):
+    for kind in ("if", "if3", "match", "call", "recall"):
         if not any(has_stmt(b["policy"], lambda s, k=kind: s["t"] == k) for b in cases):
             raise verif.ToolError("vacuous enumeration: no program with a %s statement" % kind)
     cases = cases + pinned("C30")
@@ -156,8 +157,8 @@ def run(ctx):
     ran = len(cases) - rejected - stray_rejected
     ctx.cov.update({
         "exhaustive": True,
-        "constants": {"exhaustive": "MaxStmts=3 MaxDepth=2, 5 finish bodies, 6 recall blocks, 3 match-arm bodies"
-                      + ("; MaxStmts=4 MaxDepth=0" if ctx.thorough else ""),
+        "constants": {"exhaustive": "MaxStmts=3 MaxDepth=2, 5 finish bodies, 6 recall blocks, 3 arm bodies (match, else-if)"
+                      + ("; MaxStmts=4 MaxDepth=0 with debug_assert" if ctx.thorough else ""),
                       "simulation": "100 x 100 random derivations, MaxStmts=4 MaxDepth=2" if ctx.thorough else "none"},
         "programs": ran,
         "programs_generated": len(cases),
